@@ -411,11 +411,11 @@ MANIFEST_TEXT["C08"] = dict(
 
 MANIFEST_TEXT["C09"] = dict(
     technique="metamorphic runtime monitor: identical opaque content in different presentations (alpha-less / alpha=255 / 565 / solid / 1x1 repeat) as source, mask or destination must give the same picture; 3 implementation chains",
-    level_text="Exploration: 10^5..5*10^6 request groups over all 53 operators x 3 roles x presentation groups x transforms/filters/repeats, exercising every opacity-driven operator reduction and IS_OPAQUE/SAMPLES_OPAQUE promotion; pixel-exact comparison (one code value for float-class operators).",
-    level_note="trusted: the content painter in harness/mon_c09.c; comparison on defined destination bits")
+    level_text="Exploration: 10^5..5*10^6 request groups over all 53 operators x 3 roles x presentation groups x transforms/filters/repeats, exercising every opacity-driven operator reduction and IS_OPAQUE/SAMPLES_OPAQUE promotion; pixel-exact comparison (two code values for float-class operators; a pair of an alpha-dividing operator that hook H2 shows to have been served at two different precisions is not judged, as the statement allows).",
+    level_note="trusted: the content painter in harness/mon_c09.c; comparison on defined destination bits; hook H2 only tells which precision served a request")
 
 MANIFEST_TEXT["C12"] = dict(
-    technique="reference-model runtime monitor (sample counting with exact rational edges, ambiguity band) + exact metamorphic/differential oracles (abutting parts, pixel offsets, triangle decomposition, composite vs mask route), plain + ASan",
+    technique="reference-model runtime monitor (sample counting with exact rational edges, one-unit (1/65536 pixel) ambiguity band) + exact metamorphic/differential oracles (abutting parts, pixel offsets, triangle decomposition, composite vs mask route), plain + ASan",
     level_text="Exploration: 10^5..10^7 shapes of every slope class on a1/a4/a8 targets; per-pixel coverage is compared with the count of grid samples inside the exact shape, and five bit-exact equalities between different library routes are checked.",
     level_note="trusted: sample-grid constants and rational edge evaluation in harness/mon_trap.c")
 
@@ -436,7 +436,7 @@ MANIFEST_TEXT["C15"] = dict(
 
 MANIFEST_TEXT["C17"] = dict(
     technique="history-vs-model runtime monitor on shrunken hash tables (PIXMAN_VERIF hook) with a probe-overrun hook for termination; differential monitor for glyph drawing (through the cache vs per-glyph compositing from private copies)",
-    level_text="Exploration: 10^4..10^6 histories of 200 cache operations on 8/16/128-slot tables and the production table (table-filling runs), every lookup checked against a map model, eviction checked for LRU order, termination as a logical-step verdict; glyph drawing compared bit-for-bit with the two reference constructions of the statement.",
+    level_text="Exploration: 10^4..10^6 histories of 200 cache operations on 8/16/128-slot tables and the production table (table-filling runs), every lookup checked against a map model, eviction checked for LRU order, termination as a logical-step verdict; exhaustive small scope: all histories of 5 (quick) / 7 (thorough) symbols over freeze/thaw/use/remove of 6 colliding keys on an 8-slot table; glyph drawing compared bit-for-bit with the two reference constructions of the statement.",
     level_note="trusted: the map model in harness/mon_glyph.c; hook H1 in pixman-glyph.c (guarded, add-only)")
 
 MANIFEST_TEXT["C20"] = dict(
@@ -446,7 +446,7 @@ MANIFEST_TEXT["C20"] = dict(
 
 MANIFEST_TEXT["C16"] = dict(
     technique="ThreadSanitizer (gcc -fsanitize=thread, library and monitor instrumented) over concurrent streams on private destinations with shared read-only sources, plus a serial-vs-concurrent result-digest comparison per call",
-    level_text="Exploration: 10^2..10^4 rounds of 2..16 threads x 8..48 calls; only executed interleavings are judged, rounds are repeated with and without injected yields and race reports are keyed by the top pixman function",
+    level_text="Exploration: 10^2..10^4 rounds of 2..16 threads x 8..48 calls; only executed interleavings are judged, rounds are repeated with and without injected yields and cold-start rounds make the threads' calls the first library use of a forked process; race reports are keyed by the innermost and outermost pixman function",
     level_note="trusted: gcc's ThreadSanitizer runtime; the stream generator in harness/mon_thread.c")
 
 NOT_CLAIMED = {p: "monitor not built yet in this round (design in DESIGN.md section 6); no claim is made" for p in
